@@ -270,6 +270,40 @@ def _content_ok(kind, s, d):
 TS = ['1.2.840.10008.1.2', '1.2.840.10008.1.2.1', '1.2.840.10008.1.2.2', '1.2.840.10008.1.2.4.50']
 
 
+def _pl():
+    return 2 if tier() == 'thorough' else 1
+
+
+def _utf8_ok(s_):
+    for ch in s_:
+        if 0xD800 <= ord(ch) <= 0xDFFF:
+            return False
+    return True
+
+
+@cond(bounds='a whole A-ASSOCIATE-RQ whose user-information item carries a User Identity sub-item with symbolic UTF-8 CONTENT '
+             '(primary 0..1 (thorough: 0..2), secondary 0..1 characters over the whole Unicode range, 1-4 byte encodings, lone surrogates '
+             'excluded; identity type and response flag symbolic bytes) between two other sub-items, with or without an '
+             'application-information trailer ending in NUL (generic sub-item after it): the nested length fields (sub-item, '
+             'user information, PDU) and the decoders that honour them must agree - every sub-item comes back intact and '
+             're-encoding reproduces the bytes', timeout=240, thorough_timeout=900)
+def assoc_rq_user_identity_text(p: str, q: str, a: int, b: int, trailer: bool) -> bool:
+    """
+    pre: len(p) <= _pl() and len(q) <= 1 and _utf8_ok(p) and _utf8_ok(q) and 0 <= a <= 255 and 0 <= b <= 255
+    post: _
+    """
+    subs = [udi.MaximumLengthSubItem(16384),
+            udi.UserIdentityNegotiationSubItem(p, q, user_identity_type=a, positive_response_req=b),
+            udi.ImplementationVersionNameSubItem('V1')]
+    if trailer:
+        subs.append(udi.GenericUserDataSubItem(0x60, b'\x01\x01\x00'))
+    x = pdu.AAssociateRqPDU('CALLED', 'CALLING', [pdu.ApplicationContextItem('1.2.840.10008.3.1.1.1'),
+                                                   pdu.UserInformationItem(subs)])
+    ok = rt_pdu(pdu.AAssociateRqPDU, x)
+    deep(ok and len(p) == _pl() and ord(p[0]) > 0x7FF and len(q) == 1 and ord(q[0]) > 127 and trailer)
+    return ok
+
+
 @cond(bounds='presentation-context item (RQ): context id 0..255, 4 reserved bytes 0..255, abstract-syntax UID length '
              '0..64, number of transfer-syntax sub-items 0..3 (one instance each), reserved byte of each sub-item symbolic',
       family={'k': [0, 1, 2, 3]}, timeout=120)
